@@ -128,7 +128,7 @@ Section LoopOk.
       match m_kind d with
       | KDel =>
         match nthZ oi1 oc with
-        | Some oe => find_sig (calcAddr oe oi1) (cur_sigs oi1 ni1) = Some ni1 /\ loop_ok s' (oi1 + 1) ni1 last1
+        | Some oe => find_sig (keep_addr oe ni1) (cur_sigs oi1 ni1) = Some ni1 /\ loop_ok s' (oi1 + 1) ni1 last1
         | None => False
         end
       | KIns =>
@@ -320,8 +320,8 @@ Section LoopSound.
         assert (Hoi1 : 0 <= oi1) by (unfold oi1; lia).
         rewrite (dropZ_nth oi1 oc oe Hoi1 Eoe) in Hrest, HC0.
         replace (m_old d) with oi1 in * by (unfold oi1, k; lia).
-        unfold index. rewrite Eoe. cbn [bind].
-        set (st2 := mkES (oi1 + 1) (es_new st1) (es_lastPath st1) (es_cnt st1)).
+        unfold index. rewrite Eoe. cbn [bind]. rewrite Ic1, In1. fold (keep_addr nc oe ni1).
+        set (st2 := mkES (oi1 + 1) ni1 (es_lastPath st1) (es_cnt st1)).
         set (e2 := set_children e0 (N1 ++ dropZ (oi1 + 1) oc)).
         destruct (IH (oi1 + 1) ni1 last1 st2 N1 ctx e2) as (rops & Rr & Hr & Happ2 & HN2).
         * exact HO.
@@ -334,10 +334,10 @@ Section LoopSound.
         * reflexivity.
         * exact HL0.
         * fold st2. rewrite Hr. cbn [bind].
-          exists (kops ++ ORemove (P ++ [calcAddr oe oi1]) :: rops), (Nk ++ Rr). split; [reflexivity|]. split.
+          exists (kops ++ ORemove (P ++ [keep_addr nc oe ni1]) :: rops), (Nk ++ Rr). split; [reflexivity|]. split.
           -- rewrite apply_ops_app, Happ1. cbn [obind apply_ops apply_op]. fold e0.
              rewrite (at_parent_located P ctx e0 _ _ HL0), HC0.
-             assert (Hfc : find_child (calcAddr oe oi1) (N1 ++ oe :: dropZ (oi1 + 1) oc) = Some (lenZ N1)).
+             assert (Hfc : find_child (keep_addr nc oe ni1) (N1 ++ oe :: dropZ (oi1 + 1) oc) = Some (lenZ N1)).
              { rewrite <- (dropZ_nth oi1 oc oe Hoi1 Eoe), HlN1. eapply resolve_cur; eauto. apply calcAddr_addr_step. }
              rewrite Hfc. cbn [obind]. rewrite remove_nth_app. fold e2. rewrite Happ2.
              unfold e2, e0, N1. rewrite !set_children_twice, <- app_assoc. reflexivity.
